@@ -79,6 +79,14 @@ XP3 = [
     'map:keys(map:merge(for $e in //* return map:entry(name($e), 1)))', 'parse-xml("<z>1</z>")/z',
 ]
 
+# expressions whose value is (a sequence of) function items: the items are called later, after other evaluations
+FN_EXPRS = [
+    'let $n := count(//a) return function($x) { $x + $n }', 'for $e in //a return function() { name($e) }',
+    'function($x) { $x + $i }', 'let $k := $i return function() { $k }', '//* ! function() { count(*) }',
+    'for $j in 1 to 3 return function($x) { $x * $j }', 'let $f := function($a, $b) { $a * 10 + $b } return ($f(1, ?), $f(2, ?))',
+    'let $s := string-join(//a/@x, ",") return function() { $s }', 'function() { count(//*) }',
+]
+
 VAR_EXPRS = [
     '$i + 1', '$i * $d', '$s', 'concat($s, "-", $u)', '$u + 1', '$u = "12"', '($i, $d, $s)', 'string($u)',
     '$dt', 'string($dt)', '$dt + $dur', '$dt - $dt2', '$dt lt $dt2', '$dt eq $dt2', '$date + $dur',
